@@ -85,6 +85,11 @@ LawExpr ==
      /\ Eval(Fn("not", <<Bin("or", a, b)>>), C0) = Eval(Bin("and", Fn("not", <<a>>), Fn("not", <<b>>)), C0)
      /\ Eval(Bin("|", a, b), C0) = Eval(Bin("|", b, a), C0)
      /\ Eval(Bin("|", a, a), C0) = Eval(a, C0)
+  \* MatchSet is Matches, pattern by pattern
+  /\ \A P \in {PathOf(<<Step1("child", TAny, <<Num(1)>>)>>),
+                PathOf(<<Step1("child", TAny, <<>>), Step1("descendant-or-self", TNode, <<>>), Step1("child", TNode, <<Fn("last", <<>>)>>)>>),
+                PathOf(<<Step1("attribute", TAny, <<>>)>>)} :
+        (Me \in MatchSet(P, d, C0)) = Matches(P, Me, C0)
   \* a node matches child::node() pattern iff it has a parent (XSLT 5.2)
   /\ Matches(PathOf(<<Step1("child", TNode, <<>>)>>), Me, C0) = (KindOf(F, Me) \in ChildKinds)
 NodeLaws == LawDescendant /\ LawPartition /\ LawParentChild /\ LawSiblings /\ LawOrder /\ LawOrSelf /\ LawStringValue /\ LawExpr
